@@ -199,6 +199,9 @@ func (w *world) simBody(thread *starlark.Thread, fn *starlark.Builtin, args star
 	if w.running > w.maxRunning {
 		w.maxRunning = w.running
 	}
+	if w.running > 1 {
+		w.ctx.St.Probes["target_bodies_overlapped"]++
+	}
 	defer func() { w.running-- }()
 	s := w.sim
 	for i := 0; i < spec.Yields; i++ {
